@@ -41,8 +41,31 @@ def run(prog, chk):
     graphics_vocabulary(prog, chk)
     inner_events_guard(prog, chk)
     no_precheck(prog, chk)
+    unreadable_tag_stays_raw(prog, chk)
     from props import strops
     strops.check_for(prog, chk, "C03")  # A14.str-ops: how this property's strings are cut up is a reviewed, frozen inventory
+
+
+def unreadable_tag_stays_raw(prog, chk):
+    """a start tag one of whose attribute values cannot be unescaped (an entity declared in a DTD) is not turned into
+    an SvgElement - the conversion fails and the tag is carried as the raw input event.  In TryFrom<&BytesStart> the
+    error of unescape_value() is propagated; if it is replaced by some value instead, `&name;` is held as text and is
+    escaped again on output (`&amp;name;`)."""
+    from sa import errfate
+
+    n = 0
+    for b in prog.bodies.values():
+        if not b.path.startswith("<svgdx::element::SvgElement as std::convert::TryFrom<&quick_xml::events::BytesStart") and not b.path.startswith("svgdx::events::<impl std::convert::TryFrom<&quick_xml::events::BytesStart"):
+            continue
+        chk.touch(b)
+        for site in errfate.result_fates(prog, b):
+            if site.callee is None or site.callee.path.split("::")[-1] not in ("unescape_value", "decode_and_unescape_value"):
+                continue
+            n += 1
+            base = site.fate.split(":")[0].replace("transformed-", "")
+            chk.ob(base in ("propagated", "returned", "matched-returned"), "A6.unreadable-tag", f"{site.callee.path.split('::')[-1]}", b.where(site.bb, site.line), "an attribute value that cannot be unescaped makes the conversion fail (the tag is then passed on as the raw event)", f"the error of {site.callee.path.split('::')[-1]}() is {site.fate} ({site.detail}): a value with an entity that cannot be resolved is kept in some form and escaped again on output, `&name;` becomes `&amp;name;`")
+    if n == 0:
+        chk.undecided("A6.unreadable-tag", "try_from", "src/events.rs", "no unescape_value() call found in TryFrom<&BytesStart> for SvgElement")
 
 
 def _bool_call_gate(body, callee_pred):
